@@ -198,9 +198,9 @@ let iter_cases (ic : in_channel) (on_path : string array -> unit) (f : case -> u
 
 let ces_of (c : case) = List.map (fun e -> (e.e_c, { eo_glob = e.e_glob; eo_walk = e.e_walk })) c.entries
 
-let report id agree impl_fails model_fails detail =
-  Printf.printf "CASE %s %s impl_fails=[%s] model_fails=[%s]\n" id (if agree then "agree" else "DISAGREE")
-    (String.concat "," impl_fails) (String.concat "," model_fails);
+let report ?(kf = []) id agree impl_fails model_fails detail =
+  Printf.printf "CASE %s %s impl_fails=[%s] model_fails=[%s] kf=[%s]\n" id (if agree then "agree" else "DISAGREE")
+    (String.concat "," impl_fails) (String.concat "," model_fails) (String.concat "," kf);
   List.iter (fun l -> Printf.printf "  %s\n" l) detail
 
 (* ---------- C05 ---------- *)
@@ -314,8 +314,91 @@ let run_c01 ic =
                  @ ("decoded payload:" :: List.map (fun e -> "  " ^ show_pentry e) obs)));
   Printf.printf "SUMMARY cases=%d disagreements=%d impl_failures=%d impl_errors=%d outside_envelope=%d\n" !n !n_dis !n_fail !n_err !n_skip
 
+
+(* ---------- C08 ---------- *)
+let c08_clause_name = function
+  | QConffiles -> "conffiles" | QBackups -> "backups" | QRpmFlags -> "rpm-flags" | QGhostPayload -> "ghost-payload"
+  | QGhostMode -> "ghost-mode" | QSpecialElsewhere -> "special-elsewhere" | QNoConffilesMember -> "no-conffiles-member"
+
+let run_c08 ic =
+  let n = ref 0 and n_dis = ref 0 and n_fail = ref 0 and n_err = ref 0 in
+  iter_cases ic (fun _ -> ()) (fun c ->
+      incr n;
+      let f = fmt_of_string c.format in
+      match c.impl_err, c.decode_err with
+      | Some _, _ -> incr n_err
+      | None, Some d -> incr n_fail; report c.id true ["undecodable"] [] [d]
+      | None, None ->
+        match model_prepared c with
+        | Err e -> incr n_dis; report c.id false [] [] ["planning model fails with " ^ string_of_err e]
+        | Ok cs ->
+          let obs = List.filter_map pentry_of_oent c.pents in
+          let conf_obs, has = match c.format with
+            | "deb" | "ipk" -> List.map explode c.conffiles, c.hasconffiles
+            | "archlinux" -> List.filter_map (fun (k, v) -> if k = "backup" then Some (explode v) else None) c.meta, true
+            | _ -> [], true in
+          let conf_model = match f with
+            | FDeb | FIpk -> conffiles_model cs | FArch -> backups_model cs | _ -> [] in
+          let flags_model = List.map (fun (e : pentry) -> (e.pe_path, e.pe_flags, e.pe_inpayload)) (payload_of f c.mtime cs) in
+          let flags_obs = List.map (fun (e : pentry) -> (e.pe_path, e.pe_flags, e.pe_inpayload)) obs in
+          let agree = conf_obs = conf_model && flags_model = flags_obs in
+          let clauses = check_C08 f cs has conf_obs obs in
+          let mclauses = check_C08 f cs true conf_model (payload_of f c.mtime cs) in
+          if not agree then incr n_dis;
+          if clauses <> [] then incr n_fail;
+          if (not agree) || clauses <> [] || mclauses <> [] then
+            report c.id agree (List.sort_uniq compare (List.map c08_clause_name clauses))
+              (List.sort_uniq compare (List.map c08_clause_name mclauses))
+              (if agree then [] else
+                 ["model conf: " ^ String.concat "," (List.map implode conf_model);
+                  "impl conf:  " ^ String.concat "," (List.map implode conf_obs);
+                  "model flags: " ^ String.concat "," (List.map (fun (p, fl, ip) -> Printf.sprintf "%s=%d/%b" (implode p) (int_of_n fl) ip) flags_model);
+                  "impl flags:  " ^ String.concat "," (List.map (fun (p, fl, ip) -> Printf.sprintf "%s=%d/%b" (implode p) (int_of_n fl) ip) flags_obs)]));
+  Printf.printf "SUMMARY cases=%d disagreements=%d impl_failures=%d impl_errors=%d\n" !n !n_dis !n_fail !n_err
+
+(* ---------- C09 ---------- *)
+let c09_clause_name = function SExact -> "slots-exact" | SInstall -> "install-member" | SMode -> "script-mode"
+
+let run_c09 ic =
+  let n = ref 0 and n_dis = ref 0 and n_fail = ref 0 and n_err = ref 0 in
+  iter_cases ic (fun _ -> ()) (fun c ->
+      incr n;
+      let f = fmt_of_string c.format in
+      match c.impl_err, c.decode_err with
+      | Some _, _ -> incr n_err
+      | None, Some d -> incr n_fail; report c.id true ["undecodable"] [] [d]
+      | None, None ->
+        let configured = List.filter_map (fun (slot, _, readable, bytes) -> if readable then Some (explode slot, explode bytes) else None) c.scripts in
+        let obs = List.map (fun (s, b, _) -> (explode s, explode b)) c.oscripts in
+        let modes = List.map (fun (s, _, m) -> (explode s, n_of_int m)) c.oscripts in
+        let install = match c.install with Some i -> Some (explode i) | None -> None in
+        let model = model_scripts f configured in
+        let model_install = match f, expected_scripts f configured with
+          | FArch, (_ :: _ as w) -> Some (render_install w) | _ -> None in
+        let agree = (match f with
+            | FArch -> install = model_install
+            | _ -> sort_slots obs = sort_slots model) in
+        let clauses = check_C09 f configured obs modes install in
+        let mclauses = check_C09 f configured model [] model_install in
+        if not agree then incr n_dis;
+        if clauses <> [] then incr n_fail;
+        (* known findings: the observation is exactly what rpm's string-valued scriptlet tags give *)
+        let kf =
+          if clauses <> [] && f = FRpm && sort_slots obs = sort_slots (model_scripts FRpm configured) then
+            let rpm_cfg = expected_scripts FRpm configured in
+            (if List.exists (fun (_, b) -> b = []) rpm_cfg then ["rpm-empty-script"] else [])
+            @ (if List.exists (fun (_, b) -> List.mem '\000' b) rpm_cfg then ["rpm-nul-truncation"] else [])
+          else [] in
+        if (not agree) || clauses <> [] then
+          report ~kf c.id agree (List.map c09_clause_name clauses) (List.map c09_clause_name mclauses)
+            (["configured: " ^ String.concat "," (List.map (fun (s, b) -> implode s ^ "(" ^ string_of_int (List.length b) ^ "B)") configured);
+              "observed:   " ^ String.concat "," (List.map (fun (s, b) -> implode s ^ "(" ^ string_of_int (List.length b) ^ "B)") obs)]));
+  Printf.printf "SUMMARY cases=%d disagreements=%d impl_failures=%d impl_errors=%d\n" !n !n_dis !n_fail !n_err
+
 let () =
   match Sys.argv with
   | [| _; "C05"; file |] -> let ic = open_in file in run_c05 ic; close_in ic
   | [| _; "C01"; file |] -> let ic = open_in file in run_c01 ic; close_in ic
+  | [| _; "C08"; file |] -> let ic = open_in file in run_c08 ic; close_in ic
+  | [| _; "C09"; file |] -> let ic = open_in file in run_c09 ic; close_in ic
   | _ -> prerr_endline "usage: driver <property> <casefile>"; exit 2
